@@ -157,11 +157,15 @@ def build(system, spec):
     return system
 
 
-def simulation(system, index, spec, durations, seed):
+PLANT_SETTING = [0]      # a module-level model parameter: the model reads it when it is built
+
+
+def simulation(system, index, spec, durations, seed=0):
     """The function handed to System.simulate_multiple_times (module level: picklable)."""
     random.seed(seed * 1000 + index)
     build(system, spec)
     system.env.add_datapoint('run_index', 'index', index)
+    system.env.add_datapoint('plant_setting', 'value', PLANT_SETTING[0])
     for d in durations:
         system.simulate(d, print_summary=False)
 
@@ -322,7 +326,15 @@ def check(case):
     else:
         n = case['n']
         mp = case['max_processes']
-        inproc = System.simulate_multiple_times(simulation, n, 0, spec, [T], seed)
+        # an earlier batch of runs with the same max_processes, then the model parameter changes: what the workers see must
+        # be what the calling process sees at the time of the call
+        PLANT_SETTING[0] = 0
+        System.simulate_multiple_times(simulation, 1, mp, {'devs': spec['devs'][:0] + spec['devs'], 'groups': spec.get('groups', []),
+                                                          'res': spec.get('res', {}), 'actions': [], 'maint': spec.get('maint', 2)},
+                                       [0.5], seed=seed)
+        PLANT_SETTING[0] = 1 + seed % 5
+        # extra arguments by position for one call and by keyword for the other (the seed has a default)
+        inproc = System.simulate_multiple_times(simulation, n, 0, spec, [T], seed=seed)
         multi = System.simulate_multiple_times(simulation, n, mp, spec, [T], seed)
         for name, res in (('in-process', inproc), (f'max_processes={mp}', multi)):
             if len(res) != n:
@@ -338,6 +350,8 @@ def check(case):
                 raise Violation('C14.multi-equal', f'run index {i}: in-process result differs from max_processes={mp}: {d}')
             ref = run_seeded(spec, [T], seed, index=i)
             ref.pop('run_index/index', None)
+            ref.pop('plant_setting/value', None)
+            a.pop('plant_setting/value', None)
             a2 = dict(a)
             a2.pop('run_index/index', None)
             d = diff(a2, ref)
@@ -346,6 +360,7 @@ def check(case):
                                 f'of the same function with that index: {d}')
         info['records'] = sum(len(v) for k, v in normalise(inproc[0]).items() if '/' in k and isinstance(v, list))
         info['tie_sensitive'] = diff(normalise(inproc[0]), normalise(inproc[-1])) is not None if n > 1 else False
+        PLANT_SETTING[0] = 0
     return info
 
 
@@ -354,6 +369,7 @@ def digest_of(case):
     import hashlib
     import json
     spec = case['model']
+    PLANT_SETTING[0] = 0
     A = run_seeded(spec, [sum(spec['T'])], case['seed'])
     return hashlib.sha1(json.dumps(A, sort_keys=True, default=repr).encode()).hexdigest()
 
